@@ -7,7 +7,8 @@ from ..impl import vname
 
 RULE = ('sets of held functions over <=5 variables (pairs of functions of 3 variables '
         'sampled/enumerated) x every adjacent pair x repetitions; every target permutation of '
-        '<=4 variables; every pairing; sifting from every starting order; a case is '
+        '<=4 variables; every pairing; sifting from every starting order; adjacent swaps with the node '
+        'limit 0-8 above the table size (refused before any change, or completed); a case is '
         '(held truth tables, starting order, operation); non-trivial = a held function is '
         'non-constant')
 EXHAUSTIVE = {'quick': False, 'thorough': False}
@@ -211,6 +212,37 @@ def autoref_views(ctx, n, target):
         s.op(A, 'drop', h)
 
 
+def tight_swaps(ctx, n, order, tts, reps):
+    """adjacent swaps with the node limit a few nodes above the table size: `swap` either
+    refuses BEFORE changing anything (`RuntimeError`: its estimate of the new nodes does not
+    fit) or completes; a swap that starts and then meets the full table half-way would leave
+    levels relabelled and the unique table popped (round-22 seed: the estimate looking at one
+    successor only)"""
+    H = Held(ctx, f'tight swap n={n} order={order} held={len(tts)}', n, order, tts, False)
+    rng = ctx.rng
+    for _ in range(reps):
+        x = rng.randrange(n - 1)
+        slack = rng.choice([0, 1, 2, 2, 3, 3, 4, 5, 6, 8])
+        H.M.op('set_max_nodes', len(H.M.b) + slack)
+        before = H.order()
+        r = H.M.op('swap', x, x + 1)
+        H.M.op('set_max_nodes', None)
+        ctx.case(('tight-swap', n, tuple(order), tuple(tts), x, slack, len(H.M.s.lines)), True)
+        ctx.count('tight-swap:' + ('refused' if r is None else 'done'))
+        after = H.order()
+        exp = list(before)
+        if r is not None:
+            exp[x], exp[x + 1] = exp[x + 1], exp[x]
+        if after != exp:
+            ctx.violation('C07:order', f'after swap({x},{x + 1}) at max_nodes=len+{slack} '
+                          f'({"done" if r is not None else "refused"}) order is {after}, expected {exp}', H.M.case())
+            break
+        if not H.check(f'swap({x},{x + 1}) at max_nodes=len+{slack}'):
+            break
+    H.finish()
+    ctx.sample(dict(stream=H.M.s.label, first_lines=H.M.s.lines[:6]))
+
+
 def run(ctx):
     q = ctx.quick
     rng = ctx.rng
@@ -224,6 +256,13 @@ def run(ctx):
         run_streams(ctx, True, rng)
     finally:
         DYN[0] = False
+    # swaps at a tight node limit (last, so that the streams above are the same cases as before)
+    for _ in range(60 if q else 400):
+        n_ = rng.choice([3, 3, 4])
+        order = list(range(n_))
+        rng.shuffle(order)
+        tight_swaps(ctx, n_, order, [rng.getrandbits(1 << n_) for _ in range(rng.randint(1, 3))],
+                    reps=8 if q else 10)
 
 
 def sparse_tt(rng, n, used):
